@@ -31,6 +31,34 @@ class MachineryError(Exception):
     pass
 
 
+class RealCodeCrash(Exception):
+    """The harness process died of a Go panic / fatal error raised INSIDE the library under test (innermost
+    non-runtime frame in github.com/uhn/ggql).  That is behaviour of the real code (no property allows a crash),
+    not a failure of the machinery; a crash whose innermost frame is harness code stays a MachineryError."""
+
+    def __init__(self, crash, where):
+        Exception.__init__(self, crash["what"])
+        self.crash = crash
+        self.where = where
+
+
+def real_code_crash(stderr):
+    m = re.search(r"^(panic: .*|fatal error: .*)$", stderr, re.M)
+    if not m:
+        return None
+    head = m.group(1)
+    rest = stderr[m.end():]
+    # the goroutine that was running when the process died
+    g = re.search(r"^goroutine \d+ .*\[running.*\]:\n((?:.+\n?)+)", rest, re.M)
+    block = g.group(1) if g else rest
+    frames = [l.strip() for l in block.splitlines() if l and not l.startswith(("\t", " "))]
+    funcs = [f.split("(")[0] if not f.startswith("github.com") else re.sub(r"\(0x.*$|\(\.\.\.\)$|\(\{.*$", "", f) for f in frames]
+    inner = [f for f in funcs if not f.startswith(("runtime.", "panic(", "created by", "sync.", "reflect.", "internal/", "testing."))]
+    if not inner or "github.com/uhn/ggql/" not in inner[0]:
+        return None
+    return {"what": "%s in %s" % (head, inner[0]), "stack": [head] + frames[:12]}
+
+
 class Ctx:
     def __init__(self, prop, tier, level="model_checking"):
         self.prop = prop
@@ -280,6 +308,9 @@ def run_harness_json(ctx, pkg, args, timeout=600, race=False, env=None):
     except Exception:
         rep = None
     if rep is None:
+        crash = real_code_crash(err)
+        if crash:
+            raise RealCodeCrash(crash, "harness %s %s" % (pkg, " ".join(a for a in args if not a.startswith("/"))))
         raise MachineryError("harness %s %s: rc=%s, no JSON report\nstdout: %s\nstderr: %s"
                              % (pkg, " ".join(args), rc, out[-2000:], err[-3000:]))
     rep["_rc"] = rc
